@@ -64,6 +64,16 @@ fn wrap_event(b: &mut Builder, fk: &FamilyKeys, node: usize, bk: Bk, edge: bool,
                 Some(k) if b.rng.bool() => (if b.rng.chance(2, 3) { k.pke_public_uncompressed } else { k.pke_public }, k.pke_secret),
                 _ => (fk.pke_public, fk.pke_secret),
             };
+            // k1.seal: one seal in four draws an r whose RSA ciphertext starts with two zero bytes (fixture)
+            let rng = if bk == Bk::V1 && b.rng.chance(1, 4) {
+                let idx = b.plan.steps.iter().find_map(|s| match s { Step::KeyPool { slot, idx, kind: Kind::PkePublic, .. } if *slot == to => Some(*idx), _ => None });
+                match idx.and_then(crate::fixtures::rsa4096_r_for_two_zero_bytes) {
+                    Some(r) => RngSpec::Script { draws: vec![r], seed: b.ev_seed() },
+                    None => rng,
+                }
+            } else {
+                rng
+            };
             b.push(Step::Wrap { blob, node, wk: WrapKind::Pke, key: fk.local, with: SecretRef::Key { slot: to }, params: PwParams::Default, rng });
             (blob, WrapKind::Pke, Kind::Local, SecretRef::Key { slot: sk })
         }
@@ -88,8 +98,8 @@ impl Scenario for C05 {
     }
     fn required_probes(&self, tier: Tier) -> Vec<&'static str> {
         match tier {
-            Tier::Quick => vec![],
-            Tier::Thorough => vec!["probe:rsa-kem-ciphertext-leading-zero"],
+            Tier::Quick => vec!["probe:rsa-kem-ciphertext-two-leading-zero-bytes"],
+            Tier::Thorough => vec!["probe:rsa-kem-ciphertext-leading-zero", "probe:rsa-kem-ciphertext-two-leading-zero-bytes"],
         }
     }
     fn adopts(&self, v: &crate::world::Violation) -> bool {
@@ -274,7 +284,12 @@ fn enumerate6(seed: u64, run: u64, tier: Tier, slices: u64) -> Plan {
     let mut c_leading_zero = false;
     if f == 1 && wk == WrapKind::Pke {
         let pke_idx = b.plan.steps.iter().find_map(|s| match s { Step::KeyPool { slot, idx, kind: Kind::PkePublic, .. } if *slot == fk.pke_public => Some(*idx), _ => None });
-        if let Some(n) = pke_idx.and_then(crate::fixtures::rsa4096_modulus) {
+        let two = if b.rng.bool() { pke_idx.and_then(crate::fixtures::rsa4096_r_for_two_zero_bytes) } else { None };
+        if let Some(r) = two {
+            // two leading zero bytes (fixture)
+            rng = RngSpec::Script { draws: vec![r], seed: b.ev_seed() };
+            c_leading_zero = true;
+        } else if let Some(n) = pke_idx.and_then(crate::fixtures::rsa4096_modulus) {
             use num_bigint_dig::BigUint;
             let nv = BigUint::from_bytes_be(&n);
             let e = pke_idx.and_then(|i| crate::fixtures::rsa_exponent(Kind::PkePublic, i)).map(|e| BigUint::from_bytes_be(&e)).unwrap_or_else(|| BigUint::from(65537u32));
